@@ -33,7 +33,10 @@ import (
 // hook of every instance being started (it runs after the cluster-wide name check and before the
 // instance enters the local actor tree). Fault, cost 1:
 // "flip" at a Members gate = a leadership change happened before this answer (from then on every
-// node is told that the next node is the coordinator).
+// node is told that the next node is the coordinator). Environment event, cost 1, in the "-cancelN"
+// scenarios: the context of a call that is WAITING inside goakt (started, not returned, not parked on
+// any gate: it waits for another call's in-flight spawn or for the leader's answer) is cancelled - the
+// caller gives up, exactly what an expiring caller context does.
 //
 // Oracle (exactly the statement): at every quiescent point between two events the number of running
 // instances of the singleton (PreStart returned nil, PostStop not yet entered), summed over all
@@ -106,11 +109,19 @@ func (a *c36Singleton) PostStop(*Context) error {
 }
 
 type c36Cfg struct {
-	name   string
-	nodes  int
-	calls  []int // calls per node
-	bound  int
-	leader int
+	name    string
+	nodes   int
+	calls   []int // calls per node
+	bound   int   // leadership changes
+	cancels int   // caller contexts that may be cancelled
+	leader  int
+}
+
+type c36Call struct {
+	op        string
+	cancel    context.CancelFunc
+	done      bool
+	cancelled bool
 }
 
 type c36Client struct {
@@ -138,6 +149,9 @@ func c36Run(t *testing.T, cfg c36Cfg, c *vsched.Chooser) (out vsched.Outcome) {
 			sys.registry.Register(new(c36Singleton))
 		}
 		var clients []*c36Client
+		var callsMu sync.Mutex
+		calls := map[string]*c36Call{}
+		cancelsDone := 0
 		stopped := false
 		allDone := func() bool {
 			for _, cl := range clients {
@@ -176,11 +190,20 @@ func c36Run(t *testing.T, cfg c36Cfg, c *vsched.Chooser) (out vsched.Outcome) {
 			go func() {
 				defer cl.done.Store(true)
 				for j := 0; j < cfg.calls[i]; j++ {
-					ctx := c3xWithOp(context.Background(), fmt.Sprintf("%s%d", names[i], j))
+					op := fmt.Sprintf("%s%d", names[i], j)
+					ctx, cancel := context.WithCancel(c3xWithOp(context.Background(), op))
 					if j > 0 {
 						w.wait(ctx, i, "start")
 					}
+					call := &c36Call{op: op, cancel: cancel}
+					callsMu.Lock()
+					calls[op] = call
+					callsMu.Unlock()
 					pid, err := sys.SpawnSingleton(ctx, "single", new(c36Singleton))
+					callsMu.Lock()
+					call.done = true
+					callsMu.Unlock()
+					cancel()
 					res := "err"
 					if err == nil && pid != nil {
 						res = "at:" + w.ownerName36(pid.ID())
@@ -226,6 +249,9 @@ func c36Run(t *testing.T, cfg c36Cfg, c *vsched.Chooser) (out vsched.Outcome) {
 					sig += "-with-a-stable-leader"
 				}
 				sig += "-second-started-" + dup
+				if cancelsDone > 0 {
+					sig += "-after-a-waiting-caller-gave-up"
+				}
 				viol = append(viol, vsched.Fail(sig, "nodes=%d calls=%v: %d instances of singleton \"single\" are running at the same time (per node %s), leader changes so far %d; events [%s]", cfg.nodes, cfg.calls, tot, snap, flips, w.traceString()))
 			}
 		}
@@ -248,18 +274,55 @@ func c36Run(t *testing.T, cfg c36Cfg, c *vsched.Chooser) (out vsched.Outcome) {
 				continue
 			}
 			idle = 0
-			k := c.Choose("gate", len(pend), nil, func(i int) string { return pend[i].label })
+			// waiting callers whose context may be cancelled now
+			var waiting []*c36Call
+			if cancelsDone < cfg.cancels {
+				parked := map[string]bool{}
+				for _, g := range pend {
+					parked[g.op] = true
+				}
+				callsMu.Lock()
+				for _, cl := range calls {
+					if !cl.done && !cl.cancelled && !parked[cl.op] {
+						waiting = append(waiting, cl)
+					}
+				}
+				callsMu.Unlock()
+				sort.Slice(waiting, func(i, j int) bool { return waiting[i].op < waiting[j].op })
+			}
+			costs := make([]int, len(pend)+len(waiting))
+			for i := len(pend); i < len(costs); i++ {
+				costs[i] = 1
+			}
+			k := c.Choose("gate", len(costs), costs, func(i int) string {
+				if i < len(pend) {
+					return pend[i].label
+				}
+				return "cancel:" + waiting[i-len(pend)].op
+			})
+			if k >= len(pend) {
+				cl := waiting[k-len(pend)]
+				callsMu.Lock()
+				cl.cancelled = true
+				callsMu.Unlock()
+				cancelsDone++
+				w.mu.Lock()
+				w.trace = append(w.trace, "cancel:"+cl.op)
+				w.mu.Unlock()
+				cl.cancel()
+				continue
+			}
 			g := pend[k]
 			outcome := 0
 			w.mu.Lock()
 			flipped := w.flips
 			w.mu.Unlock()
 			if len(g.faults) > 0 && flipped < cfg.bound {
-				costs := make([]int, 1+len(g.faults))
-				for i := 1; i < len(costs); i++ {
-					costs[i] = 1
+				fcosts := make([]int, 1+len(g.faults))
+				for i := 1; i < len(fcosts); i++ {
+					fcosts[i] = 1
 				}
-				outcome = c.Choose("fault", len(costs), costs, func(i int) string {
+				outcome = c.Choose("fault", len(fcosts), fcosts, func(i int) string {
 					if i == 0 {
 						return g.label + " ok"
 					}
@@ -294,7 +357,7 @@ func c36Run(t *testing.T, cfg c36Cfg, c *vsched.Chooser) (out vsched.Outcome) {
 			cl.mu.Unlock()
 		}
 		sort.Strings(res)
-		out.Obs = fmt.Sprintf("running=%s started=%s by=%s max=%d record=%s flips=%d %s", run, started, creators, maxRun, rec, flips, strings.Join(res, " "))
+		out.Obs = fmt.Sprintf("running=%s started=%s by=%s max=%d record=%s flips=%d cancels=%d %s", run, started, creators, maxRun, rec, flips, cancelsDone, strings.Join(res, " "))
 		if len(herr) > 0 && out.Invalid == "" {
 			out.Invalid = "harness: " + strings.Join(herr, "; ")
 		}
@@ -334,6 +397,14 @@ func TestVerifC36(t *testing.T) {
 		}
 		cfgs = append(cfgs, c36Cfg{name: fmt.Sprintf("c36-n%d-calls%s-leader%d-flips%d", len(calls), strings.Join(cs, ""), leader, bound), nodes: len(calls), calls: calls, bound: bound, leader: leader})
 	}
+	// stable leader, one waiting caller may give up (its context is cancelled)
+	addCancel := func(leader int, calls ...int) {
+		var cs []string
+		for _, k := range calls {
+			cs = append(cs, fmt.Sprint(k))
+		}
+		cfgs = append(cfgs, c36Cfg{name: fmt.Sprintf("c36-n%d-calls%s-leader%d-flips0-cancel1", len(calls), strings.Join(cs, ""), leader), nodes: len(calls), calls: calls, cancels: 1, leader: leader})
+	}
 	add(0, 0, 1, 1)
 	add(0, 0, 2, 1)
 	add(0, 0, 1, 2)
@@ -341,7 +412,11 @@ func TestVerifC36(t *testing.T) {
 	add(0, 0, 1, 1, 1)
 	add(0, 2, 1, 1, 0)
 	add(1, 0, 1, 1)
+	addCancel(0, 1, 2)
+	addCancel(0, 2, 1)
 	if r.Thorough() {
+		addCancel(0, 2, 2)
+		addCancel(0, 1, 1, 1)
 		add(0, 1, 2, 1, 1)
 		add(1, 0, 2, 1)
 		add(1, 1, 1, 2)
@@ -352,8 +427,8 @@ func TestVerifC36(t *testing.T) {
 	var scs []vsched.Scenario
 	for _, cfg := range cfgs {
 		scs = append(scs, vsched.Scenario{
-			Cfg: vsched.Config{Scenario: cfg.name, Bound: cfg.bound, SplitDepth: 4,
-				Params: map[string]any{"nodes": cfg.nodes, "calls": cfg.calls, "initial_leader": cfg.leader, "max_leader_changes": cfg.bound}},
+			Cfg: vsched.Config{Scenario: cfg.name, Bound: cfg.bound + cfg.cancels, SplitDepth: 4,
+				Params: map[string]any{"nodes": cfg.nodes, "calls": cfg.calls, "initial_leader": cfg.leader, "max_leader_changes": cfg.bound, "max_cancelled_callers": cfg.cancels}},
 			Run: func(c *vsched.Chooser) vsched.Outcome { return c36Run(t, cfg, c) },
 		})
 	}
